@@ -533,11 +533,19 @@ Qed.
 (* D12 is the class of inbound ResendRequests: everything else that dispatch does keeps the invariant *)
 Lemma dispatch_outok c m v : mkind m <> KResend -> outok (dispatch c m v).
 Proof.
-  intros Hk. unfold dispatch. destruct (mkind m); try congruence; try apply outok_ret.
-  - destruct v; [apply outok_emit; exact I|apply outok_ret].
+  intros Hk.
+  assert (Hd : outok (if v then (w <- getw ;; match get_int T34 m with
+                                             | inl n => if n =? nin w then emit (App m) else ret tt
+                                             | inr _ => ret tt end)
+                      else ret tt)).
+  { destruct v; [|apply outok_ret]. ok_step; [apply outok_getw| |].
+    - destruct (get_int T34 m); [|apply outok_ret]. destruct (_ =? _); [apply outok_emit; exact I|apply outok_ret].
+    - mono_tac. }
+  unfold dispatch. destruct (mkind m); try congruence; try apply outok_ret.
+  - exact Hd.
   - apply process_testrequest_outok.
   - apply process_heartbeat_outok.
-  - destruct v; [apply outok_emit; exact I|apply outok_ret].
+  - exact Hd.
 Qed.
 
 Lemma dispatch_mono c m v : mkind m <> KResend -> mono (dispatch c m v).
